@@ -3,6 +3,7 @@ import Model.Numscript.Spec
 import Model.Numscript.VM
 import Lemmas.NumRun
 import Lemmas.NumCheck
+import Lemmas.NumBytecode
 import Generated.Opcodes
 /-! C08 — compiled programs do what the source says.
 `Spec.run` is the definition of "what the source text says".  What is proved here (growing):
@@ -33,6 +34,12 @@ theorem type_table_matches : Generated.types = Num.typeTable := by decide
 /-- every instruction's opcode byte and Go name are an entry of the (tied) table -/
 theorem opcode_in_table (i : Instr) : (i.name, i.opcode) ∈ Num.opcodeTable := by
   cases i <;> simp [Num.opcodeTable, Num.allInstrs, Instr.name, Instr.opcode]
+
+/-- the byte string `encode` produces decodes back, opcode by opcode (two operand bytes after `OP_APUSH`), to the
+instruction list the VM model executes — for addresses that fit a `uint16`, which is all the compiler allocates -/
+theorem decode_encode_roundtrip (is : List Instr) (h : ∀ i ∈ is, i.addrOK) :
+    decodeNat (encodeNat is).length (encodeNat is) = some is :=
+  decode_encode is h _ (Nat.le_refl _)
 
 /-- compiling is a function of the program alone: the same program compiles to the same bytecode, resources,
 needed balances and sources (or to the same refusal) — no hidden state, whatever was compiled before -/
